@@ -3,7 +3,12 @@ package main
 // Tracking of reads/writes to memory reachable from package-level variables of
 // the encoded packages (used by C09).
 
-import "fmt"
+import (
+	"fmt"
+	"strings"
+
+	"golang.org/x/tools/go/ssa"
+)
 
 func (p *Path) markGlobals() {
 	p.globalCells = map[*Value]string{}
@@ -53,7 +58,21 @@ func (p *Path) markGlobals() {
 			}
 		}
 	}
+	// every package-level variable of the encoded packages, touched by init or not
+	for pk := range p.ex.pkgs {
+		for _, m := range pk.Members {
+			if g, ok := m.(*ssa.Global); ok {
+				p.global(g)
+			}
+		}
+	}
 	for g, c := range p.globals {
+		if strings.HasPrefix(g.Name(), "verif") || strings.HasPrefix(g.Name(), "init$") {
+			continue // harness support state
+		}
+		if g.Pos().IsValid() && strings.Contains(p.ex.prog.Fset.Position(g.Pos()).Filename, "zz_verif_") {
+			continue
+		}
 		walkCell(c, g.Name())
 	}
 }
